@@ -177,7 +177,7 @@ def body_E1(ctx):
     fails_left = sh.get("F", 1)
     failing = set()
     for cycle in range(cycles):
-        for p in range(nprod):
+        for p in range(max(nprod, 1)):
             for i in range(nmsg):
                 if fails_left > 0 and ctx.flag("destination fails on c%d-p%d-m%d" % (cycle, p, i)):
                     fails_left -= 1
@@ -231,6 +231,8 @@ def body_E1(ctx):
                 writer.startService()
                 log.append(("started", cycle))
                 prods = [SchedThread(sched, target=producer(p, cycle), name="P%d" % p) for p in range(nprod)]
+                if nprod == 0:
+                    producer(0, cycle)()  # the main thread offers the messages itself
                 for t in prods:
                     t.start()
                     sched.yield_point("main: producer started")
@@ -300,7 +302,7 @@ def E1() -> bool:
 
 def _shards(tier):
     if tier == "quick":
-        cfgs = [{"producers": 1, "msgs": 2, "P": 2, "F": 1}, {"producers": 1, "msgs": 1, "P": 1, "F": 0, "writers": 2}]
+        cfgs = [{"producers": 1, "msgs": 2, "P": 2, "F": 1}, {"producers": 0, "msgs": 2, "P": 1, "F": 0, "writers": 2}]
     else:
         cfgs = [{"producers": 1, "msgs": 2, "P": 3, "F": 2}, {"producers": 2, "msgs": 1, "P": 2, "F": 1}, {"producers": 1, "msgs": 1, "P": 2, "F": 1, "cycles": 2}, {"producers": 1, "msgs": 2, "P": 2, "F": 0, "writers": 2}]
     out = []
